@@ -686,3 +686,24 @@ def expand_locals(path, expr, before_index=None, depth=4):
   from sa import inline  # pylint: disable=g-import-not-at-top
   idx = len(path.steps) if before_index is None else before_index
   return _PathSubst(path, idx, depth).visit(inline._fast_copy(expr))  # pylint: disable=protected-access
+
+
+def dict_builds(finfo):
+  """Dictionaries built per element, as a comprehension or as a loop storing
+  into a dict: [dict(key=, value=, target=, iter=, name=)] (name: the local
+  holding the dict in the loop form, None for a comprehension)."""
+  out = []
+  for n in walk_no_nested(finfo.node):
+    if isinstance(n, ast.DictComp) and len(n.generators) == 1:
+      g = n.generators[0]
+      out.append(dict(key=n.key, value=n.value, target=g.target, iter=g.iter,
+                      name=None, node=n))
+    elif isinstance(n, ast.For):
+      for st in n.body:
+        if isinstance(st, ast.Assign) and len(st.targets) == 1 and isinstance(
+            st.targets[0], ast.Subscript) and isinstance(
+                st.targets[0].value, ast.Name):
+          out.append(dict(key=st.targets[0].slice, value=st.value,
+                          target=n.target, iter=n.iter,
+                          name=st.targets[0].value.id, node=n))
+  return out
